@@ -3,7 +3,7 @@
  * In-process against the library built from the current working tree.
  *
  *   distdrv corr     line protocol of lean/Drivers/DistMain.lean (doubles as IEEE bit patterns, hex16):
- *       seed <u64> | unit <N> | flip <N> | dice <N> <a> <b> | bern <N> <p> | binom <N> <n> <p> |
+ *       seed <u64> | unit <N> | flip <N> | stdexp <N> | geom <N> <p> | dice <N> <a> <b> | bern <N> <p> | binom <N> <n> <p> |
  *       loaded <N> <p...> | alias <N> <p...>      -> one line per operation (alias: the table, then the samples)
  *   distdrv supp     support scan, summary only:
  *       supp <name> <N> <seed> <lo> <hi> <flags> <params...>     flags: i = integer valued, o = lo excluded, c = hi excluded
@@ -135,6 +135,20 @@ static void corr_line(char *line)
         sscanf(line, "%*s %llu", &n);
         printf("flip");
         for (unsigned long long i = 0; i < n; i++) printf(" %d", cmb_random_flip());
+        printf("\n");
+    }
+    else if (strcmp(op, "stdexp") == 0) {
+        sscanf(line, "%*s %llu", &n);
+        printf("stdexp");
+        for (unsigned long long i = 0; i < n; i++) printf(" %016" PRIx64, dbits(cmb_random_std_exponential()));
+        printf("\n");
+    }
+    else if (strcmp(op, "geom") == 0) {
+        double p[MAXP];
+        sscanf(line, "%*s %llu%n", &n, &off);
+        if (parse_bits(line + off, p) < 1) { printf("bad-op geom\n"); return; }
+        printf("geom");
+        for (unsigned long long i = 0; i < n; i++) printf(" %u", cmb_random_geometric(p[0]));
         printf("\n");
     }
     else if (strcmp(op, "dice") == 0) {
